@@ -9,7 +9,10 @@ CONSTANTS
   MaxEvents = 2
   MaxDeliver = 4
   MaxReinit = 0
-INVARIANTS TypeOK Chain BookValid BookNeverWrong BookIsMap Told CleanNeverErrors
+  EXPECTED = {1}
+  MaxBuf = 0
+  InitOrder = "snapshot-first"
+INVARIANTS TypeOK Chain BookValid BookNeverWrong BookIsMap Told CleanNeverErrors ConsumerFold EmissionOrder
 PROPERTIES BreakSurfaces Isolation AdvanceOnlyOnAdmission
 VIEW View
 CHECK_DEADLOCK FALSE
